@@ -331,20 +331,29 @@ structure RArg where
 
 def isDigit (c : UInt8) : Bool := decide (48 ≤ c.toNat) && decide (c.toNat ≤ 57)
 
-/-- Truth value of a resolved `set_if` (:511-528) for the values the generator uses: `"true"`,
-    `"false"`, Empty/"" (`Convert::ToLong` = 0), and `-?[0-9]{1,9}`.  Everything else counts as a
-    conversion error (`continue`, :516-524); numeric forms beyond this fragment (`1e3`, `0.5`, > 9 digits, …)
-    are not generated. -/
-def setIfTruth (v : Val) : Bool :=
+/-- Bytes with which a text that `boost::lexical_cast<double>` might accept can begin (digits, sign,
+    point, `inf`/`nan`, blanks). -/
+def numericStart (c : UInt8) : Bool :=
+  isDigit c || c = 43 || c = 45 || c = 46 || c = 105 || c = 73 || c = 110 || c = 78 || c = 32 ||
+  (decide (9 ≤ c.toNat) && decide (c.toNat ≤ 13))
+
+/-- Truth value of a resolved `set_if` (:511-528): `"true"`, `"false"`, Empty/"" (`Convert::ToLong` = 0),
+    `-?[0-9]{1,9}` (non-zero = true), and texts that cannot be numbers (conversion error: `continue`,
+    :516-524).  Other numeric-looking texts (`+7`, `1e3`, `0.5`, more than 9 digits, …) and arrays go through
+    `lexical_cast<double>` and two narrowing casts, which the property does not define: `none` — the model
+    does not decide them. -/
+def setIfTruth (v : Val) : Option Bool :=
   match v.scalarBytes with
-  | none => false
+  | none => none
   | some b =>
-    if b = sTrue then true
-    else if b = sFalse then false
-    else if b = [] then false
+    if b = sTrue then some true
+    else if b = sFalse then some false
+    else if b = [] then some false
     else
       let ds := match b with | 45 :: r => r | r => r
-      !ds.isEmpty && ds.length ≤ 9 && ds.all isDigit && ds.any (· ≠ 48)
+      if !ds.isEmpty && ds.length ≤ 9 && ds.all isDigit then some (ds.any (· ≠ 48))
+      else if numericStart (b.headD 0) then none
+      else some false
 
 inductive ArgOut
   | skip
@@ -356,7 +365,10 @@ def resolveArg (objs : List Obj) (level : Nat) (a : ArgSpec) : Except Err ArgOut
   let pass ← (if a.setIf.isEmpty then pure true                              -- :500
     else do
       let (v, miss) ← resolveMacros objs (level + 1) false a.setIf             -- :502-504
-      pure (!miss && setIfTruth v) : Except Err Bool)                          -- :506-528
+      if miss then pure false                                                 -- :506-507
+      else match setIfTruth v with                                            -- :509-528
+        | some t => pure t
+        | none => throw .unsupported : Except Err Bool)
   if !pass then return .skip
   let (v, miss) ← resolveMacros objs (level + 1) false a.value                 -- :538-540
   if miss then
